@@ -1838,7 +1838,7 @@ class GramStack(Stack):
 
         if ha in blockeds: # already blocked on this iteration
             laters.append((pkt, ha)) # keep sequential
-            return False  # blocked
+            return True  # only this destination is blocked, keep servicing the others
 
         try:
             count = self.handler.send(pkt.packed, ha)  # datagram always sends all
